@@ -173,8 +173,20 @@ func handlerSeq(prop string, first byte, maxLen, bound int) *explore.Scenario {
 // grpc.Trailer call options. Oracles: C04 (exactly what the accepted calls set;
 // calls after the headers left are refused AND leave no trace), C03, C06, C14.
 func unaryHandlerSeq(prop string, first byte, maxLen int) *explore.Scenario {
+	return unaryHandlerSeqL(prop, first, maxLen, false)
+}
+
+// late: the handler's context is already over when it performs the operations
+// (the request carried a 50 ms grpc-timeout of the caller's choosing while the
+// caller itself waits on): the call is still in progress, and what the handler
+// sets before it returns still reaches the caller.
+func unaryHandlerSeqL(prop string, first byte, maxLen int, late bool) *explore.Scenario {
+	name := fmt.Sprintf("%s/unary-handler-seq/first=%c/len<=%d", prop, first, maxLen)
+	if late {
+		name += "/after-handler-deadline"
+	}
 	return &explore.Scenario{
-		Name:   fmt.Sprintf("%s/unary-handler-seq/first=%c/len<=%d", prop, first, maxLen),
+		Name:   name,
 		Family: prop + "/handler-seq", Prop: prop, Bound: 0, MaxExecs: 3000000,
 		Run: func() {
 			w := env.NewWorld()
@@ -191,6 +203,9 @@ func unaryHandlerSeq(prop string, first byte, maxLen int) *explore.Scenario {
 			hdrLeft := false
 			var retErr error
 			w.Unaries["u"] = func(r *env.Rec, ctx context.Context, in string) (string, error) {
+				if late {
+					<-ctx.Done()
+				}
 				for pos := 0; pos < maxLen; pos++ {
 					op := first
 					if pos > 0 {
@@ -234,8 +249,18 @@ func unaryHandlerSeq(prop string, first byte, maxLen int) *explore.Scenario {
 				return "rep", retErr
 			}
 			out := new(env.Msg)
-			err := d.CC.Invoke(context.Background(), env.MUnary, env.S("u|x"), out)
-			vsched.Quiesce()
+			cctx := context.Background()
+			if late {
+				cctx = metadata.AppendToOutgoingContext(cctx, "grpc-timeout", "50m")
+			}
+			var err error
+			idone := false
+			vsched.GoNamed("caller", func() { err = d.CC.Invoke(cctx, env.MUnary, env.S("u|x"), out); idone = true })
+			vsched.QuiesceTime()
+			if !idone {
+				vsched.Fail(prop+"/handler-seq|hang", "the unary call never returned")
+				return
+			}
 			hdr := sh.hdr
 			// (no API shows a unary caller the trailers: judge what arrives for it on the wire)
 			trl := metadata.MD{}
@@ -298,7 +323,7 @@ func handlerSeqs(prop, tier string) []*explore.Scenario {
 		maxLen = 5
 	}
 	for _, f := range []byte("hHt") {
-		out = append(out, unaryHandlerSeq(prop, f, maxLen+1))
+		out = append(out, unaryHandlerSeq(prop, f, maxLen+1), unaryHandlerSeqL(prop, f, 3, true))
 	}
 	for _, f := range []byte("rshHt") {
 		out = append(out, handlerSeq(prop, f, maxLen, 0))
